@@ -99,6 +99,25 @@ def main():
             return
     if not {'1', '2', '3'} <= {l.split('_')[0].rstrip('.0') or '0' for l in lits}:
         pass
+    # declarations: every symbol's initialiser is searched (not only the first one's)
+    from loki import Subroutine
+    decl_src = ('subroutine d(n, m)\n  integer, intent(in) :: n, m\n'
+                '  integer :: lo = 1, hi = max(n, m), mid = min(n, m)/2\n  hi = lo\nend subroutine d\n')
+    droutine = Subroutine.from_source(decl_src)
+    spec = droutine.spec
+    out['cases_run'] += 1
+    calls = sorted(str(c.name).lower() for c in FindInlineCalls(unique=False).visit(spec))
+    if calls != ['max', 'min']:
+        out.update(reproduced=True, what='FindInlineCalls on a declaration with several initialised symbols',
+                   observed=calls, expected=['max', 'min'])
+        print(json.dumps(out, default=str))
+        return
+    vs = [str(v.name).lower() for v in FindVariables(unique=False).visit(spec)]
+    if vs.count('n') < 3 or vs.count('m') < 3:
+        out.update(reproduced=True, what='FindVariables on a declaration with several initialised symbols',
+                   observed=sorted(vs), expected='n and m three times each (declared once, used in two initialisers)')
+        print(json.dumps(out, default=str))
+        return
     print(json.dumps(out, default=str))
 
 
